@@ -425,7 +425,7 @@ Judge(b, obs) ==
           THEN { << "C04", t >> : t \in WF(r) }
                \cup (IF Len(r) < 14 THEN {}
                      ELSE IF o.kind = "none" \/ ~ReplyShape(b, r, 4) THEN MirrorEth(b, r)
-                     ELSE CASE o.kind = "arp"    -> ArpReplyOK(b, r)
+                     ELSE CASE o.kind = "arp"    -> IF ArpWellFormed(b) THEN ArpReplyOK(b, r) ELSE MirrorEth(b, r)
                             [] o.kind = "echo4"  -> IF Ip4Proto(r) = PROTO_ICMP THEN EchoReplyOK(b, r) ELSE { << "C03", "same-transport" >> }
                             [] o.kind = "echo6"  -> IF Ip6Nh(r) = PROTO_ICMP6 THEN EchoReplyOK(b, r) ELSE { << "C03", "same-transport" >> }
                             [] o.kind = "na"     -> IF Ip6Nh(r) = PROTO_ICMP6 THEN NaOK(b, r) ELSE { << "C03", "same-transport" >> }
